@@ -7,6 +7,7 @@ import JenVerif.Gen.StdHints
 import JenVerif.Gen.IsPrint
 import JenVerif.DriverSyn
 import JenVerif.GenNames
+import JenVerif.Props.C08
 /-
   Line-protocol driver (tie 2): interprets recipes with the model's semantics and prints the
   raw (unformatted) bytes of every render.  Core-only, so it is also built as a `lean_exe`.
@@ -226,11 +227,11 @@ def step (d : DState) (line : String) : Except String (DState × List String) :=
     | "hintname" => do
       let (i, p, n) ← run (do let i ← nextReg; let p ← nextStr; let n ← nextStr; pure (i, p, n))
       let f := d.file i
-      pure (d.setFile i { f with st := Registry.importName f.st p n }, [])
+      pure (d.setFile i { f with st := (C08.Op.hintName p n).run (mkCfg d) f.st }, [])
     | "hintalias" => do
       let (i, p, n) ← run (do let i ← nextReg; let p ← nextStr; let n ← nextStr; pure (i, p, n))
       let f := d.file i
-      pure (d.setFile i { f with st := Registry.importAlias f.st p n }, [])
+      pure (d.setFile i { f with st := (C08.Op.hintAlias p n).run (mkCfg d) f.st }, [])
     | "hintnames" => do
       let (i, m) ← run (do
         let i ← nextReg
@@ -238,11 +239,11 @@ def step (d : DState) (line : String) : Except String (DState × List String) :=
         let m ← rep n (do let p ← nextStr; let v ← nextStr; pure (p, v))
         pure (i, m))
       let f := d.file i
-      pure (d.setFile i { f with st := Registry.importNames f.st m }, [])
+      pure (d.setFile i { f with st := (C08.Op.hintNames m).run (mkCfg d) f.st }, [])
     | "anon" => do
       let (i, ps) ← run (do let i ← nextReg; let n ← nextNat; let ps ← rep n nextStr; pure (i, ps))
       let f := d.file i
-      pure (d.setFile i { f with st := ps.foldl Registry.anon f.st }, [])
+      pure (d.setFile i { f with st := ps.foldl (fun st p => (C08.Op.anon p).run (mkCfg d) st) f.st }, [])
     | "hc" => do
       let (i, t) ← run (do let i ← nextReg; let t ← nextStr; pure (i, t))
       let f := d.file i
@@ -286,7 +287,8 @@ def step (d : DState) (line : String) : Except String (DState × List String) :=
       if misuse f.st.np (.group fileInfo body) then
         pure (d, ["E misuse"])
       else
-        let r := renderFileRaw cfg f.st body
+        -- the history semantics the theorems of Props/C08 are about (`C08.Op.run`) is what runs here
+        let r := ((renderFileRaw cfg f.st body).1, (C08.Op.renderFile body).run cfg f.st)
         let extra := if f.syn.isEmpty then [] else
           -- C01: the reference printer's text under the final naming
           let e : Code.Env := { np := r.2.np, name := fun p => (Registry.lookupImp r.2 p).name }
@@ -299,7 +301,7 @@ def step (d : DState) (line : String) : Except String (DState × List String) :=
       let cfg := mkCfg d
       if misuse f.st.np c then pure (d, ["E misuse"])
       else
-        let r := renderS cfg f.st none c
+        let r := ((renderS cfg f.st none c).1, (C08.Op.renderFrag c).run cfg f.st)
         pure (d.setFile i { f with st := r.2 }, [s!"R {esc r.1}"])
     | "gfrag" => do
       let (g, i) ← run (do let g ← nextReg; let i ← nextReg; pure (g, i))
